@@ -97,7 +97,15 @@ def seed_form(rng, d, n, default):
     if form == 'farray':     # a float64 ndarray: the form an implementation is most tempted to use without copying
         return {'farray': [float(d[i]) if i in d else float(rng.choice(marks)) for i in range(n)]}
     if form == 'dict':
-        return {'dict': {str(k): v for k, v in d.items()}}
+        out = {str(k): v for k, v in d.items()}
+        # a dict may also LIST nodes without a seed, marked by a negative value ("negative values are ignored"): the caller's
+        # dict must come back with these entries, and they must count as absent (seed C01_11 popped them from the caller's dict)
+        if default is not None and default < 0 and rng.random() < 0.4:
+            for i in rng.sample(range(n), min(n, 2)):
+                if i not in d:
+                    out[str(i)] = rng.choice(marks)
+            out = dict(sorted(out.items(), key=lambda kv: rng.random()))
+        return {'dict': out}
     arr = [d[i] if i in d else rng.choice(marks) for i in range(n)]
     return {'array': arr} if form == 'array' else arr
 
